@@ -495,7 +495,6 @@ func randomC(w *tr.W, r *rng.R, cases, big int) {
 var boundaryI = []uint64{0x8000000000000000, 0x8000000000000001, 0xffffffffffffffff, 0, 1, 0x7fffffffffffffff, 0x7ffffffffffffffe, 0xfffffffffffffffe,
 	0x80, 0x7f, 0xff, 0x100, 0xff00000000000000, 0x0100000000000000, 0x00ff000000000000, 0x8000000000000080, 0x7f80000000000000, 0xff7fffffffffffff}
 
-
 // Column shapes: every byte position independently is constant 0x00, constant 0xff, constant other or
 // varying, with at least one varying position ABOVE (more significant than) a constant one, so that
 // a pass over a constant column (all keys in one bucket, e.g. all-zero digits) is followed by a pass
@@ -649,7 +648,7 @@ func randomU(w *tr.W, r *rng.R, cases, big int) {
 		second := tops[r.Intn(len(tops))]
 		pos := uint(r.Intn(8)) * 8
 		keep := uint(r.Intn(8)) // number of shared top bytes for the deep-recursion shape
-		if shape >= 10 { // column shapes (constant 0x00 / 0xff / other / varying per byte position)
+		if shape >= 10 {        // column shapes (constant 0x00 / 0xff / other / varying per byte position)
 			vals = columnU(r, n, columnModes(r, 8))
 		}
 		for i := range vals {
